@@ -11,6 +11,7 @@ import (
 const Sec = int64(1e9)
 
 type ChangelogOpts struct {
+	Zones     bool // express event times in assorted zone offsets (same instants, different representations)
 	Timed     bool // every record has a non-zero event time; watermarks are interleaved
 	MaxOps    int
 	NoRetract bool
@@ -70,7 +71,11 @@ func Changelog(t *rapid.T, label string, o ChangelogOpts, newRow func(t *rapid.T
 			if o.Timed {
 				tt = lastWM + int64(rapid.IntRange(1, 4).Draw(t, lab+"t"))*Sec
 			}
-			msgs = append(msgs, Msg{Kind: "rec", Vals: vals, T: tt})
+			m := Msg{Kind: "rec", Vals: vals, T: tt}
+			if o.Zones && o.Timed {
+				m.Z = rapid.SampledFrom([]int{0, 0, 3600, 19800, -7200}).Draw(t, lab+"zone")
+			}
+			msgs = append(msgs, m)
 			present = append(present, live{vals, tt})
 		}
 	}
